@@ -287,6 +287,61 @@ def _bfs(initial, events, maxdepth, res, label):
     res.sample({"part": "seq", "history_example": [("add", ADD[0]), ("advance", 0, 2), ("tick", 1.0), ("advance", 0, 1)]}, limit=1)
 
 
+# ----------------------------------------------------------------------------- float amounts x sample window
+# Long, narrow histories the BFS depth cannot reach: k float advances (amounts that are not exact in binary),
+# a clock jump past the speed window (so that these samples are discarded), one more advance, a short tick, a
+# last advance. Every event is judged by the reference like any BFS transition (completed = sum of the advances,
+# speed and time_remaining never negative). Any estimate kept incrementally instead of being recomputed shows here.
+FW_AMOUNTS = [0.1, 0.2, 0.3, 0.7, 1.1, 3]
+FW_LATE = [0, 0.1, 0.3, 1, 1.1]
+FW_LAST = [0, 0.1]
+
+
+def _fw_histories(tier):
+    maxk = 3 if tier == "quick" else 4
+    for via in ("advance", "update"):
+        def adv(a):
+            return ("advance", 0, a) if via == "advance" else ("update", 0, {"total": None, "completed": None, "advance": a})
+        for k in range(1, maxk + 1):
+            for amounts in itertools.product(FW_AMOUNTS, repeat=k):
+                for spaced in (False, True):
+                    head = [("add", dict(total=100, start=True, completed=0))]
+                    for a in amounts:
+                        if spaced:
+                            head.append(("tick", 1.0))
+                        head.append(adv(a))
+                    for jump in (40.0, 29.0):
+                        for d in FW_LATE:
+                            for e in FW_LAST:
+                                yield head + [("tick", jump), adv(d), ("tick", 1.0), adv(e)]
+
+
+def _run_fw(sh, tier, res):
+    n = 0
+    for i, hist in enumerate(_fw_histories(tier)):
+        if i % sh["n"] != sh["i"]:
+            continue
+        if n % 64 == 0 and deadline_passed():
+            res.capped = True
+            break
+        clock = Clock()
+        p = _mk_progress(clock)
+        ids, refs = [], []
+        try:
+            for j, ev in enumerate(hist):
+                touched = _apply(p, clock, ids, refs, ev)
+                for key, detail in _check(p, ids, refs, ev, touched):
+                    res.violate(key.replace("seq/", "seq/float-window/", 1), {"part": "seq", "history": hist[:j + 1]}, detail)
+        except Exception as e:  # noqa
+            res.violate("seq/float-window/exception/%s" % type(e).__name__, {"part": "seq", "history": hist}, repr(e))
+        n += 1
+        res.evaluations += 1
+        t0 = p.tasks[0]
+        res.sig(("fw", len(hist), t0.speed is None, len(t0._progress)), nontrivial=t0.speed is not None)
+    res.count("float_window_histories", n)
+    res.count("transitions", n)
+
+
 # ----------------------------------------------------------------------------- track()
 def _track_cases():
     for n in range(0, 5):
@@ -615,6 +670,8 @@ def plan(tier, seed):
     for i in range(4):
         shards.append({"part": "seq2", "i": i, "n": 4, "depth": depth2})
     shards.append({"part": "track"})
+    for i in range(8):
+        shards.append({"part": "fw", "i": i, "n": 8})
     shards.append({"part": "track-real"})
     for n in range(0, 3 if tier == "quick" else 5):
         for kind in ("list", "generator"):
@@ -636,6 +693,8 @@ def run_shard(sh, tier, seed):
     elif part == "seq2":
         inits = [[("add", a), ("add", b)] for a in (ADD[0], ADD[3]) for b in (ADD[0], ADD[5])]
         _bfs([inits[sh["i"]]], _events(2), sh["depth"], res, "seq2")
+    elif part == "fw":
+        _run_fw(sh, tier, res)
     elif part == "track":
         for case in _track_cases():
             _check_track_seq(case, res)
@@ -690,10 +749,10 @@ def describe(tier, seed, res):
     return {
         "rule": "sequential: BFS from each of 16 add_task variants over {advance x5, update x17, reset x8, start_task, stop_task, "
                 "tick x2} with dedup on (total, completed, relative start/stop times, finished_time, relative samples); two-task "
-                "BFS at smaller depth; track() over lists/generators of length 0..4 without and (under the scheduler, timeout "
+                "BFS at smaller depth; float-window histories (1..%d advances by amounts from {0.1, 0.2, 0.3, 0.7, 1.1, 3}, at one time or 1 s apart, through advance() or update(advance=), then a clock jump of 40 s / 29 s around the 30 s speed window, a further advance from {0, 0.1, 0.3, 1, 1.1}, 1 s, a last advance from {0, 0.1}; every event judged); track() over lists/generators of length 0..4 without and (under the scheduler, timeout "
                 "budget 2) with the helper thread. track() with its real helper thread: three consecutive runs in one cold process (fresh and shared Progress), final counts. concurrent: harnesses P1..P13 (2-3 threads, mutators on one task; P9 two threads each adding and advancing their own task; P11-P13 a finishing advance/update against reset / total change) -- every "
                 "schedule within the preemption bound at bytecode granularity inside the mutators. non-trivial = the task "
-                "finished or has a speed estimate (sequential), every schedule (concurrent); distinct = outcome signatures.",
+                "finished or has a speed estimate (sequential), every schedule (concurrent); distinct = outcome signatures." % (3 if tier == "quick" else 4),
         "assumptions": [
             "monotone clock; tick-per-call clock in concurrent harnesses so that two reads are ordered",
             "counters capped at |completed| <= 12 for state dedup (events are still executed and judged beyond, not extended)",
